@@ -75,7 +75,10 @@ def infer_redirection(url, recursive=True):
     if target is None:
         return url
 
-    if recursive:
+    # NOTE: a target embedded in the url is strictly shorter than the url. When
+    # it is not (a relative target joined back onto itself), recursing again
+    # would never end.
+    if recursive and len(target) < len(url):
         return infer_redirection(target, recursive=True)
 
     return target
